@@ -347,22 +347,22 @@ result_t DateTimeDataType::readSymbols(size_t offset, size_t length, const Symbo
     }
     switch (type) {
       case 2:  // date only
+        if (length == 2 && i == 0) {
+          break;  // number of days since 01.01.1900: the low byte alone is neither a date part nor a replacement
+        }
         if (!hasFlag(REQ) && (symbol == m_replacement || (!hasFlag(REZ) && symbol == 0))) {
           if (i + 1 != length) {
             *output << NULL_VALUE << ".";
             break;
           } else if (last == m_replacement || (!hasFlag(REZ) && last == 0)) {
             if (length == 2) {  // number of days since 01.01.1900
-              *output << NULL_VALUE << ".";
+              *output << NULL_VALUE << "." << NULL_VALUE << ".";
             }
             *output << NULL_VALUE;
             break;
           }
         }
         if (length == 2) {  // number of days since 01.01.1900
-          if (i == 0) {
-            break;
-          }
           int mjd = last + symbol*256 + 15020;  // 01.01.1900
           int y = static_cast<int>((mjd-15078.2)/365.25);
           int m = static_cast<int>((mjd-14956.1-static_cast<int>(y*365.25))/30.6001);
@@ -386,8 +386,12 @@ result_t DateTimeDataType::readSymbols(size_t offset, size_t length, const Symbo
         break;
 
       case 1:  // time only
-        if (!hasFlag(REQ) && symbol == m_replacement) {
-          if (length == 1) {  // truncated time
+        if (hasFlag(SPE) && i == 0) {  // minutes since midnight: the low byte alone is no replacement
+          last = symbol;
+          continue;
+        }
+        if (!hasFlag(REQ) && symbol == m_replacement && (!hasFlag(SPE) || last == m_replacement)) {
+          if (length == 1 || hasFlag(SPE)) {  // truncated time, minutes since midnight
             *output << NULL_VALUE << ":" << NULL_VALUE;
             break;
           }
@@ -398,10 +402,6 @@ result_t DateTimeDataType::readSymbols(size_t offset, size_t length, const Symbo
           break;
         }
         if (hasFlag(SPE)) {  // minutes since midnight
-          if (i == 0) {
-            last = symbol;
-            continue;
-          }
           minutes = symbol*256 + last;
           if (minutes > 24*60) {
             return RESULT_ERR_OUT_OF_RANGE;  // invalid value
